@@ -22,6 +22,53 @@ ASSUME = [
 ]
 
 
+DP_PATHS = ["arc", "clone_last", "raw", "unique", "offset", "union1", "union2", "dyn", "hs", "slice", "thin"]
+
+
+def drop_panic_pass(ctx):
+    """the last handle is released while a payload destructor panics: through every handle kind the
+    block must still go back to the allocator exactly once with its request layout (in the model the
+    release emits the dealloc event unconditionally: `C01_destructor_with_release` / `decr_log`)."""
+    import subprocess
+    from vlib import common
+    exe, out = common.cargo_build_bin(ctx, "uninit")
+    if exe is None:
+        return
+    lines = ["dp %s %s" % (p, w) for p in DP_PATHS for w in ("none", "hdr", "el")]
+    pr = subprocess.run([exe], input="\n".join(lines) + "\n", capture_output=True, text=True, timeout=120)
+    outs = pr.stdout.split("\n")
+    bad = []
+    for k, ln in enumerate(lines):
+        o = dict(x.split("=", 1) for x in (outs[k].split() if k < len(outs) and outs[k] else ["st=missing"]))
+        _, path, which = ln.split()
+        has_hdr = path in ("hs", "thin")
+        n_el = 3 if path in ("hs", "slice", "thin") else 1
+        want_st = "panic" if which == "el" or (which == "hdr" and has_hdr) else "ok"
+        why = []
+        if o.get("st") != want_st:
+            why.append("status %s, expected %s" % (o.get("st"), want_st))
+        if o.get("never_freed") != "0":
+            why.append("the block was never returned to the allocator")
+        if o.get("freed_twice") != "0":
+            why.append("a block was freed twice")
+        if o.get("wrong_layout") != "0":
+            why.append("freed with a layout different from the requested one")
+        if o.get("edrop") != str(n_el) or o.get("hdrop") != ("1" if has_hdr else "0"):
+            why.append("destructor runs: header %s, elements %s (expected %d / %d)" % (o.get("hdrop"), o.get("edrop"), 1 if has_hdr else 0, n_el))
+        if why:
+            bad.append((ln, outs[k] if k < len(outs) else "", why))
+    if pr.returncode != 0:
+        bad.append(("(whole sweep)", "exit status %s" % pr.returncode, ["the harness process died: " + pr.stderr[-300:]]))
+    ctx.oblige("faults:release-with-panicking-destructor", not bad, "%d failing" % len(bad))
+    ctx.coverage["destructor_panic_sweep"] = {"cases": len(lines), "failures": len(bad), "sample": {"case": lines[26], "impl": outs[26] if len(outs) > 26 else ""}}
+    ctx.coverage["evaluations"] = ctx.coverage.get("evaluations", 0) + len(lines)
+    if bad:
+        body = ["last handle released while a payload destructor panics (caught by catch_unwind); the tracking allocator's view:", ""]
+        for (ln, o, why) in bad[:6]:
+            body += ["case : " + ln, "  impl : " + o, "  PROPERTY C05 FAILS: " + "; ".join(why), ""]
+        ctx.violation("ops", "\n".join(body), True)
+
+
 def run(ctx):
     layout_corr.run_property(ctx, "C05", MODULE, ASSUME,
                              extra_modules=["TriompheModel.Props.C05Hist", "TriompheModel.Proofs.HistLen"])
@@ -31,6 +78,7 @@ def run(ctx):
     from vlib import histcheck
     histcheck.run(ctx, MODULE, dict(create=22, iter=10, conv=22, drop=16, clone=10, intoThin=5, tryUnwrap=4, intoInner=3, cb=6),
                   ["C05"], lean=False, cov_key="history_pass", n_quick=150)
+    drop_panic_pass(ctx)
 
 
 def replay(ctx, path):
